@@ -244,17 +244,20 @@ WSetSeq(o) == LET s == SortKeys({k \in Keys : o[k] # NoWrite}) IN [j \in 1..Len(
 KeySeq(S) == LET s == SortKeys(S) IN [j \in 1..Len(s) |-> [b |-> s[j][1], n |-> s[j][2]]]
 Obs == [req |-> KeySeq(req), wset |-> WSetSeq(out)]
 
-(* A recorded read set rs (sequence of [b, n, ver, v]; ver: 0 = empty version, 1 = the key's current *)
-(* version in the backing state, anything else = some other version) is sound for this execution:  *)
+(* A recorded read set rs (sequence of [b, n, ver, v]; ver: 0 = empty version and the backing state  *)
+(* has never seen the key, 1 = the key's current version in the backing state, anything else = some *)
+(* other version) is sound for this execution:                                                      *)
 (* distinct keys, each with the version and value the backing state holds, covering req.  It is a  *)
 (* constraint, not a pin: further keys (look-ahead) are allowed.                                    *)
 RSetOkX(bx, rq, o, m, rs) ==
   /\ \A i \in 1..Len(rs) :
-        /\ <<rs[i].b, rs[i].n>> \in Keys
-        /\ LET st == bx[<<rs[i].b, rs[i].n>>] IN
-           /\ st # "nf"
-           /\ rs[i].ver = (IF st \in {"live", "del"} THEN 1 ELSE 0)
-           /\ rs[i].v = EntryVal(st)
+        IF <<rs[i].b, rs[i].n>> \in Keys
+        THEN LET st == bx[<<rs[i].b, rs[i].n>>] IN
+             /\ st # "nf"
+             /\ rs[i].ver = (IF st \in {"live", "del"} THEN 1 ELSE 0)
+             /\ rs[i].v = EntryVal(st)
+        ELSE \* an over-read outside the program's key universe (b = 9, n = -1, -2, ..): the version the backing state holds
+             rs[i].b = 9 /\ rs[i].ver \in {0, 1}
   /\ \A i, j \in 1..Len(rs) : (rs[i].b = rs[j].b /\ rs[i].n = rs[j].n) => i = j
   /\ \A k \in rq : \E i \in 1..Len(rs) : rs[i].b = k[1] /\ rs[i].n = k[2]
   \* the written keys outside the transient bucket are read keys (follows from req; stated for the record)
